@@ -80,6 +80,9 @@ _CONTAINS_CONTROL_CHAR_RE = re.compile(r"[^-!#$%&'*+.^_`|~0-9a-zA-Z]")
 
 # A host is written verbatim into the CONNECT request line and its Host header.
 _TUNNEL_HOST_DISALLOWED_RE = re.compile(r"[\x00-\x20\x7f]")
+# The headers of a CONNECT request are written without going through putheader().
+_TUNNEL_HEADER_NAME_RE = re.compile(r"[^:\s][^:\r\n]*")
+_TUNNEL_HEADER_VALUE_DISALLOWED_RE = re.compile(r"\n(?![ \t])|\r(?![ \t\n])")
 
 
 class HTTPConnection(_HTTPConnection):
@@ -237,6 +240,11 @@ class HTTPConnection(_HTTPConnection):
             raise ValueError(
                 f"Tunnel host can't contain control characters or spaces: {host!r} (found at least {match.group()!r})"
             )
+        for name, value in (headers or {}).items():
+            if not _TUNNEL_HEADER_NAME_RE.fullmatch(to_str(name)):
+                raise ValueError(f"Invalid header name {name!r}")
+            if _TUNNEL_HEADER_VALUE_DISALLOWED_RE.search(to_str(value)):
+                raise ValueError(f"Invalid header value {value!r}")
         super().set_tunnel(host, port=port, headers=headers)
         self._tunnel_scheme = scheme
 
